@@ -2,7 +2,7 @@
 import vpl, os
 
 LEVEL = "proof"
-LIBS = ["VssLemmas.vo", "VssLagrange.vo", "DkgLemmas.vo"]
+LIBS = ["VssLemmas.vo", "VssLagrange.vo", "DkgLemmas.vo", "DkgRoundLemmas.vo"]
 
 def run(res, tier, seed, replay):
     res.cov["rule"] = ("records = observations of forked n-party runs of PedersenVSS (Share/Reconstruct for every dealer), GJKR new-DKG (Generate) and "
